@@ -26,7 +26,7 @@ ASSUMPTIONS = ['patterns from the listed pools (no lookbehind / ^ under a window
 REQUIRED_FLAGS = {'tie_at_start': 1, 'boundary_inside_match': 1, 'marker_before_match': 1,
                   'zero_width': 1, 'prior_trimmed': 1}
 
-RE_POOL = ['a', 'ab', 'b', 'a|ab', 'ab|a', 'b*', '(a)(b)?', '[ab]b', 'a$']
+RE_POOL = ['a', 'ab', 'b', 'a|ab', 'ab|a', 'b*', '(a)(b)?', '[ab]b', 'a$', 'aba']
 EX_POOL = ['a', 'ab', 'b', 'ba', 'aba']
 
 
